@@ -105,8 +105,14 @@ func (ex *Exec) pos(p token.Pos) string {
 }
 
 func (ex *Exec) flushFacts() {
+	// side facts (value ranges of what was loaded or computed) hold where the value was obtained:
+	// they are guarded by the path, like every other assumption made along it
 	for _, f := range ex.env.side {
-		ex.e.assume(f)
+		if ex.curBlock != nil {
+			ex.assumeHere(f)
+		} else {
+			ex.e.assume(f)
+		}
 	}
 	ex.env.side = nil
 }
